@@ -32,6 +32,15 @@ CLAIMED["C11"] = ("exploration",
  "Every value kind (plus pointer cycles, typed nils, non-string map keys, unexported fields, 200-deep data) is placed in 29 directive positions and as root data; every include graph over three files with one include edge per file in six placements (every cycle shape) is combined with layout cycles; rapid mutates catalogue-like templates with ~80 malformed expressions, unbalanced mustaches, deep nesting, stray chain members and doubled slots; the thorough tier adds 120 s of native coverage-guided fuzzing of raw template bytes. A case passes iff the call returns without a panic within 4000 file opens, 32 MiB of output and 128 MiB of stack. Exhaustive for the two enumerated families within their bounds; sampled for template sources.",
  "Non-termination is decided by deterministic budgets, so a pure CPU loop that neither opens files nor writes would only hit the driver watchdog (exit 2, inconclusive). Unconditional include cycles with fan-out >= 2 and self-containing map/slice values (fmt itself overflows on them) are outside the asserted domain. User functions that panic are the user's defect.",
  "DESIGN.md §6 C11")
+CLAIMED["C09"] = ("exploration",
+ "randomised concurrent schedules (goroutine count, GOMAXPROCS, barrier, cold/warm, file writer) under the Go race detector + differential oracle (each concurrent call vs the same call alone on a fresh engine)",
+ "Every catalogue program (all features) is rendered by 2..64 goroutines released together on one shared engine / base template through a mix of all six entry points, with cold and warm caches, a read-only data map shared between goroutines, per-goroutine unique paths and expressions (concurrent writes to the path and program caches), a second engine running another program at the same time, and optionally a writer goroutine replacing template files with new mtimes. The build uses -race: any report is a violation; and every call's bytes and error must equal the same call run alone (old or new file version when files change). Schedules are sampled, not enumerated; the happens-before analysis covers every conflicting pair that was executed regardless of timing.",
+ "Interleavings are not controlled by the harness. Cross-talk that needs a specific interleaving and is not a data race can be missed. The check's own filesystem is mutex-protected.",
+ "DESIGN.md §6 C09")
+CLAIMED['C05'] = ("exploration", 'rapid-generated include trees + exhaustive cores; reference scope model (includer scope + props + front-matter), differential shorthand vs explicit include', 'Generated file sets (<=5 components, depth<=3, fan-out<=3, every prop provided/omitted/static/interpolated/bound, name collisions with includer variables and front-matter, :required lists in CSV/repeated form) are rendered and every printed name at every position is compared with a scope model; required names missing from all sources must fail with an error naming them, never otherwise; the shorthand spelling must render like the explicit include. Exhaustive cores for flat, twice-included, 3-deep chains and value types; sampled beyond.', "Unspecified and unasserted: a required name satisfied only by the includer's scope, JSON-looking static props (documented auto-decode), unresolved bound paths.", 'DESIGN.md §6 C05')
+CLAIMED['C08'] = ("exploration", 'bounded exhaustive enumeration of source-presence patterns x value types x Fill kinds x read positions + rapid op histories on a template tree; reference precedence model', 'All 2^6 presence patterns of a key over {front-matter, Fill, Assign, data/a.yml, data/b.yml, theme.yml} x five value types x map/struct/pointer Fill arguments (field by name, by tag, Go name of a tagged field) x five read positions are compared with the first-present-source model; rapid histories of New/Load/Fill/Assign/Render/Get on a tree check that children never disturb parents or siblings. Exhaustive for family A within its bound.', 'An Assign before a later Fill of other keys is unspecified (Fill sets all variables) and not asserted. Open finding: Get() returns an Assign value that front-matter overrides in renders.', 'DESIGN.md §6 C08')
+CLAIMED['C13'] = ("exploration", 'typed expression-tree and pipe-chain generators (rapid) + bounded enumeration; reference evaluator written for the check; position-agreement (metamorphic) oracle', "Typed expression trees (depth<=3: paths, literals, comparison, logical, arithmetic, ternary, calls) are rendered in {{ }}, static and bound attributes, v-if, v-else-if and v-show; the printed value must equal the check's own evaluator and all positions must agree. Pipe chains up to length 3 over built-ins and 18 registered functions of every parameter shape must equal direct left-to-right application with the documented conversions; unknown function, wrong arity, impossible conversion and returned errors must fail the render with an error naming the function. Sampled, with an exhaustive depth-1 core.", "Value of '/' and '!' on non-bools, narrowing conversions, bare literals as whole expressions and built-ins outside their documented input type are unspecified and only compared across positions.", 'DESIGN.md §6 C13')
+CLAIMED['C17'] = ("exploration", 'stateful model-based testing: exhaustive short op sequences + rapid long ones against a slice-of-maps reference model; path resolution checked against plain Go indexing done by the generator', 'Every op sequence up to length 3 (quick) / 4 (thorough) over a 17-op alphabet and six root-data shapes, and rapid sequences up to 30 ops, are run against the real Stack and a reference model, comparing Lookup/Resolve/EnvMap for every name after every op and the independence of copies. Generated nested values with a path obtained by walking the value with ordinary Go indexing must resolve to that element in dotted and bracketed spellings; invalid paths must report absence without panicking. Exhaustive for short sequences and paths.', 'Presence of nil-valued bindings, Pop clearing a caller map, ForEach order over maps and best-effort Get* conversions are unspecified and unasserted.', 'DESIGN.md §6 C17')
 NOT_YET = "check under construction in this session; not claimed until it is built and silent on the unchanged tree"
 
 def main():
